@@ -366,6 +366,7 @@ func bytesCase(c *CaseCtx, salt int64) *ContCase {
 	}
 	cc.Prof = DefaultValProfile()
 	cc.Prof.Composite = true
+	cc.Prof.CompositeFlip = true
 	cc.Prof.PContainer = 35
 	cc.Prof.PSome = 20
 	cc.Prof.MaxDepth = 3
@@ -544,6 +545,7 @@ func runC03(c *CaseCtx) *CaseResult {
 	cc.Prof.PContainer = 18
 	cc.Prof.MaxDepth = 3
 	cc.Prof.Composite = c.Case%4 == 0
+	cc.Prof.CompositeFlip = cc.Prof.Composite
 	ops := 320
 	if c.Tier == "thorough" {
 		ops = 500 + r.Intn(1000)
@@ -705,6 +707,7 @@ func runC10(c *CaseCtx) *CaseResult {
 	cc.Prof.PSome = 25
 	cc.Prof.MaxChildElems = 4
 	cc.Prof.Composite = c.Case%4 == 1
+	cc.Prof.CompositeFlip = cc.Prof.Composite
 	ops := 420
 	if c.Tier == "thorough" {
 		ops = 800 + r.Intn(1500)
